@@ -6,6 +6,8 @@ import (
 
 	"github.com/fxamacker/cbor/v2"
 
+	"github.com/bronlabs/bron-crypto/pkg/base/algebra"
+	"github.com/bronlabs/bron-crypto/pkg/base/algebra/constructions"
 	"github.com/bronlabs/bron-crypto/pkg/base/mat"
 	"github.com/bronlabs/bron-crypto/pkg/base/polynomials"
 	"github.com/bronlabs/bron-crypto/pkg/base/serde"
@@ -215,6 +217,9 @@ type (
 	egPkDTOc struct {
 		H sG `cbor:"h"`
 	}
+	egCtDTOc struct {
+		V *constructions.FiniteDirectPowerModuleElement[sG, sF] `cbor:"v"`
+	}
 	egSkDTOc struct {
 		G sG `cbor:"g"`
 		A sF `cbor:"a"`
@@ -275,6 +280,41 @@ func c12Keys(env *SymEnv) {
 		if acc {
 			env.Valid("C12.elgamal.SecretKey/public part = g^a", env.EqG(k.Public().Value(), g.ScalarOp(a)))
 		}
+	}
+	{
+		// ElGamal ciphertext: a direct-power element that must have exactly two components (and,
+		// like the constructor demands, neither the identity)
+		c1, c2, c3 := env.Point("egct.c1"), env.Point("egct.c2"), env.Point("egct.c3")
+		mkV := func(pts ...sG) *constructions.FiniteDirectPowerModuleElement[sG, sF] {
+			mod, err := constructions.NewFiniteDirectPowerModule(algebra.PrimeGroup[sG, sF](env.R.Group()), uint(len(pts)))
+			if err != nil {
+				return nil
+			}
+			v, err := mod.New(pts...)
+			if err != nil {
+				return nil
+			}
+			return v
+		}
+		if v2 := mkV(c1, c2); v2 != nil {
+			var ct elgamal.Ciphertext[sG, sF]
+			acc := c12Decode(env, "C12.elgamal.Ciphertext", egCtDTOc{v2}, &ct)
+			if acc {
+				comps := ct.Value().Components()
+				env.Check("C12.elgamal.Ciphertext/accepted value has the two decoded components", len(comps) == 2, fmt.Sprint(len(comps)))
+				if len(comps) == 2 {
+					env.Valid("C12.elgamal.Ciphertext/accepted components are the encoded ones", symalg.And(env.EqG(comps[0], c1), env.EqG(comps[1], c2)))
+				}
+				env.Reach("C12.elgamal.Ciphertext/accepted")
+			}
+		}
+		if v1 := mkV(c1); v1 != nil {
+			c12MustReject(env, "C12.elgamal.Ciphertext/one component refused", egCtDTOc{v1}, &elgamal.Ciphertext[sG, sF]{})
+		}
+		if v3 := mkV(c1, c2, c3); v3 != nil {
+			c12MustReject(env, "C12.elgamal.Ciphertext/three components refused", egCtDTOc{v3}, &elgamal.Ciphertext[sG, sF]{})
+		}
+		c12MustReject(env, "C12.elgamal.Ciphertext/nil refused", egCtDTOc{nil}, &elgamal.Ciphertext[sG, sF]{})
 	}
 	{
 		p := env.Point("schnorr.pk")
